@@ -338,6 +338,11 @@ Definition holds_C06_value (s s' : pstate) : bool :=
    else (p_rx s * p_ps s' * (P18 - 1) <=? p_rx s' * p_ps s * P18) &&
         (p_ry s * p_ps s' * (P18 - 1) <=? p_ry s' * p_ps s * P18)).
 
+(* a step that executes no deposit / withdrawal on the pool (and no swap against it) leaves its reserves and
+   its share supply exactly as they were *)
+Definition holds_C06_untouched (s s' : pstate) : bool :=
+  (p_rx s =? p_rx s') && (p_ry s =? p_ry s') && (p_ps s =? p_ps s').
+
 (* ranged pool quote/base amounts offered by the order-book clamps never exceed the reserves *)
 Definition holds_C06_clamp_buy (rx price amt : Z) : bool :=
   (0 <=? amt) && ((amt =? MaxCoinAmount) || (price * amt <=? rx * P18)).
